@@ -34,8 +34,11 @@ func init() { props["C07"] = runC07 }
 type scopeT struct {
 	mode byte // R N X S V M
 	ok   bool
-	id   int
-	body []*scopeT
+	// panics: the failing business does not return an error but panics (every second failing scope, by id);
+	// for the transaction that is the same as a failure, and WithGlobalTx must return it as an error
+	panics bool
+	id     int
+	body   []*scopeT
 }
 
 var c07Modes = []byte{'R', 'N', 'X', 'S', 'V', 'M'}
@@ -135,6 +138,9 @@ func (r *c07Run) exec(ctx context.Context, prog []*scopeT, fresh bool) {
 				}
 				r.add(fmt.Sprintf("E%d:%s", s.id, x))
 				r.exec(c, s.body, fresh)
+				if !s.ok && s.panics {
+					panic("business panicked")
+				}
 				if !s.ok {
 					return errors.New("business failed")
 				}
@@ -177,7 +183,7 @@ func enumScopes(depth int, maxKids int) []*scopeT {
 
 func cloneNumber(s *scopeT, next *int) *scopeT {
 	*next++
-	n := &scopeT{mode: s.mode, ok: s.ok, id: *next}
+	n := &scopeT{mode: s.mode, ok: s.ok, id: *next, panics: !s.ok && *next%2 == 0}
 	for _, k := range s.body {
 		n.body = append(n.body, cloneNumber(k, next))
 	}
@@ -187,6 +193,7 @@ func cloneNumber(s *scopeT, next *int) *scopeT {
 func randScope(r *Rng, depth int, next *int) *scopeT {
 	*next++
 	s := &scopeT{mode: c07Modes[r.Intn(6)], ok: r.Chance(65), id: *next}
+	s.panics = !s.ok && *next%2 == 0
 	if depth > 1 {
 		nk := r.Intn(3)
 		for i := 0; i < nk; i++ {
